@@ -523,7 +523,7 @@ def check(run, terrs):
         return core.conclude(run, False, err, [], [])
     cases, fcases = enumerate_cases(run)
     failures, model_diffs = correspond(run, binary, cases, fcases)
-    side_probe_debug_format(run, binary)
+    failures += correspond_trace(run, binary)
     # smallest failing inputs first (the replay names the first one)
     failures.sort(key=lambda f: (len(f.get("case", {}).get("jsonnet", "")), f.get("case", {}).get("path", "")))
     kinds = {}
@@ -579,27 +579,136 @@ def spec_reader_vs_python(run, res):
     run.obligation("C05.spec_reader_agrees_with_python_json(corpus)", not bad, "; ".join(bad[:5]))
 
 
-def side_probe_debug_format(run, binary):
-    """JsonFormat::debug() (std.trace of a non-string) is not one of the paths the property lists;
-    recorded as a note only."""
-    code = 'std.trace({a: "' + "é" * 200 + '"}, 1)'
-    code2 = 'std.trace({a: "' + "a" + "é" * 200 + '"}, 1)'
-    outs = core.run_harness(binary, "eval", [{"code": code, "trace": True}, {"code": code2, "trace": True}])
-    for c, o in zip(("even offset", "odd offset"), outs):
-        if "panic" in o:
-            run.notes.append(f"side probe (outside C05's paths, C04 site): std.trace of an object with a long "
-                             f"non-ASCII string ({c}) panics: {o['panic'][:160]}")
+# ------------------------------------------------------------------ std.trace: JsonFormat::debug()
+# Not one of the property's faithful paths (it deliberately shortens long strings), but it is JSON
+# manifestation code of the same writer: std.trace(v, x) of a non-string value must never panic, must emit
+# well-formed JSON, and must be faithful wherever nothing was shortened.
+DEBUG_TRUNCATE = 256
+KNOWN_DEBUG = "C05-debug-truncate-char-boundary"
 
 
-def ulps(a, b):
-    """distance in representable doubles between two bit patterns (sign-magnitude order)"""
-    if (a >> 63) != (b >> 63):
-        return 1 << 64
-    return abs(a - b)
+def boundary(b, i):
+    """is byte offset i of the UTF-8 text b a char boundary"""
+    return i == 0 or i >= len(b) or (b[i] & 0xC0) != 0x80
 
 
-def compare(expected, got, path="$", tol=0):
-    """first difference between two value tuples, or None; numbers may differ by <= tol ulps"""
+def debug_splits_inside_char(v):
+    """classifier of KNOWN_DEBUG: some string VALUE (keys are never shortened) is longer than
+    DEBUG_TRUNCATE bytes and byte offset truncate/2 or len - truncate/2 falls inside a character"""
+    if v[0] == "str":
+        b = v[1].encode("utf-8")
+        h = DEBUG_TRUNCATE // 2
+        return len(b) > DEBUG_TRUNCATE and not (boundary(b, h) and boundary(b, len(b) - h))
+    if v[0] == "arr":
+        return any(debug_splits_inside_char(x) for x in v[1])
+    if v[0] == "obj":
+        return any(debug_splits_inside_char(x) for _, x in v[1])
+    return False
+
+
+def debug_compare(v, got, path="$"):
+    """like compare, but a string longer than DEBUG_TRUNCATE bytes may come back as head ++ ".." ++ tail with
+    head a prefix and tail a suffix of it, each at most truncate/2 bytes and less than one character short of it"""
+    if v[0] == "str" and got[0] == "str" and len(v[1].encode("utf-8")) > DEBUG_TRUNCATE:
+        s, t, h = v[1], got[1], DEBUG_TRUNCATE // 2
+        for k in range(len(t) - 1):
+            if t[k:k + 2] == ".." and s.startswith(t[:k]) and s.endswith(t[k + 2:]):
+                a, b = len(t[:k].encode("utf-8")), len(t[k + 2:].encode("utf-8"))
+                if h - 3 <= a <= h and h - 3 <= b <= h:
+                    return None
+        return f"{path}: long string not shortened to head ++ '..' ++ tail of 125..128 bytes each: {t[:60]!r}"
+    if v[0] != got[0]:
+        return f"{path}: expected {v[0]}, read back {got[0]}"
+    if v[0] == "arr":
+        if len(v[1]) != len(got[1]):
+            return f"{path}: array length {len(v[1])} read back as {len(got[1])}"
+        for i, (a, b) in enumerate(zip(v[1], got[1])):
+            d = debug_compare(a, b, f"{path}[{i}]")
+            if d:
+                return d
+        return None
+    if v[0] == "obj":
+        if [k for k, _ in v[1]] != [k for k, _ in got[1]]:
+            return f"{path}: object keys differ"
+        for (k, a), (_, b) in zip(v[1], got[1]):
+            d = debug_compare(a, b, f"{path}.{k!r}")
+            if d:
+                return d
+        return None
+    return compare(v, got, path)
+
+
+def trace_values(run):
+    """values with long non-ASCII strings around the truncation threshold, every alignment of the two cuts"""
+    vs = []
+    for ch in ("é", "\u0800", "\U0001f600", "a"):
+        w = len(ch.encode("utf-8"))
+        for pre in range(0, 4):
+            for n in (120 // w, 128 // w, 256 // w, 256 // w + 1, 300 // w, 400 // w):
+                for post in (0, 1):
+                    vs.append(("str", "a" * pre + ch * n + "b" * post))
+    r = run.rng.fork("trace")
+    g = Gen(r)
+    out = [("obj", [("a", s)]) for s in vs[::2]] + [("arr", [s]) for s in vs[1::2]]
+    for _ in range(40):
+        n = r.choice([100, 200, 257, 300, 513])
+        s = "".join(r.choice(["a", "é", "\u2028", "\U0001f600", '"', "\\", "\n"]) for _ in range(n))
+        out.append(("obj", sorted(dict([(k, ("str", s)) for k in g.keys(2)] + [("zz", g.value(2))]).items())))
+    for _ in range(30):
+        out.append(("arr", [g.value(3)]))       # nothing long: must be faithful
+    seen, uniq = set(), []
+    for v in out:
+        v = ("obj", sorted(v[1])) if v[0] == "obj" else v
+        k = show(v, 10 ** 6)
+        if k not in seen:
+            seen.add(k)
+            uniq.append(v)
+    return uniq
+
+
+def correspond_trace(run, binary):
+    failures = []
+    g = Gen(run.rng.fork("trace-src"))
+    vals = trace_values(run)
+    reqs = [{"code": f"std.trace({g.src(v, plain=True)}, 1)", "trace": True} for v in vals]
+    outs = core.run_harness(binary, "eval", reqs)
+    for v, rq, o in zip(vals, reqs, outs):
+        run.note_case("T:" + rq["code"], True)
+        run.count("path:std.trace(debug format)")
+        cls = debug_splits_inside_char(v)
+        run.count("trace:cut-inside-char" if cls else "trace:cut-on-boundary-or-short")
+        case = {"jsonnet": rq["code"], "path": "std.trace", "value": show(v)}
+
+        def fail(what, got, _case=case, _cls=cls, _code=rq["code"]):
+            f = {"case": _case, "summary": f"C05 [std.trace] {what}: {_code[:160]}", "what": what,
+                 "expected": "one trace label: well-formed JSON of the value, long strings shortened at character boundaries",
+                 "got": got}
+            if _cls and isinstance(got, dict) and "panic" in got:
+                f["known"] = KNOWN_DEBUG
+                f["summary"] = f["summary"].replace("C05 [", "C05 known [", 1)
+                run.count("known:debug-truncate-char-boundary")
+            failures.append(f)
+
+        if "ok" not in o:
+            fail("std.trace of a manifestable value panics" if "panic" in o else "std.trace of a manifestable value fails", o)
+            continue
+        tr = o.get("traces") or []
+        if len(tr) != 1:
+            fail("expected exactly one trace label", tr)
+            continue
+        try:
+            got, _ = oracle_read(tr[0])
+        except (ValueError, RecursionError) as e:
+            fail(f"trace label is not well-formed JSON ({str(e)[:100]})", tr[0][:300])
+            continue
+        d = debug_compare(v, got)
+        if d:
+            fail(f"trace label reads back as a different value ({d})", tr[0][:300])
+    return failures
+
+
+def compare(expected, got, path="$"):
+    """first difference between two value tuples, or None; numbers bit for bit"""
     if expected[0] != got[0]:
         return f"{path}: expected {expected[0]}, read back {got[0]}"
     t = expected[0]
@@ -610,13 +719,13 @@ def compare(expected, got, path="$", tol=0):
                         f"read back {[ord(c) for c in got[1]][:40]}")
             return f"{path}: expected {expected[1]}, read back {got[1]}"
     elif t == "num":
-        if expected[1] != got[1] and ulps(expected[1], got[1]) > tol:
+        if expected[1] != got[1]:
             return f"{path}: number differs: expected bits {expected[1]} ({b2f(expected[1])!r}), read back {got[1]} ({b2f(got[1])!r})"
     elif t == "arr":
         if len(expected[1]) != len(got[1]):
             return f"{path}: array length {len(expected[1])} read back as {len(got[1])}"
         for i, (a, b) in enumerate(zip(expected[1], got[1])):
-            d = compare(a, b, f"{path}[{i}]", tol)
+            d = compare(a, b, f"{path}[{i}]")
             if d:
                 return d
     elif t == "obj":
@@ -624,7 +733,7 @@ def compare(expected, got, path="$", tol=0):
         if ek != gk:
             return f"{path}: object keys: expected (visible, ascending) {ek[:20]!r}, read back {gk[:20]!r}"
         for (k, a), (_, b) in zip(expected[1], got[1]):
-            d = compare(a, b, f"{path}.{k!r}", tol)
+            d = compare(a, b, f"{path}.{k!r}")
             if d:
                 return d
     return None
@@ -632,7 +741,7 @@ def compare(expected, got, path="$", tol=0):
 
 # Coq parses ~2-4k list elements per second: the model side is budgeted in source bytes
 MODEL_CASE_MAX = 700
-MODEL_BUDGET_QUICK = 45000
+MODEL_BUDGET_QUICK = 30000
 MODEL_BUDGET_THOROUGH = 600000
 def digest(bs):
     a = c = 0
@@ -693,42 +802,6 @@ def model_compare(run, model_exprs, model_meta, fmeta, model_diffs):
                     model_diffs.append({"case": {"jsonnet": src, "path": name},
                                         "model": None if b is None else b.decode("utf-8", "replace")[:300],
                                         "code": t[:300]})
-
-
-KNOWN_PJ = "C05-parsejson-number-not-correctly-rounded"
-PJ_TOL = 2
-
-
-KNOWN_PJ_MAX = "C05-parsejson-max-double-out-of-range"
-F64_MAX_BITS = 0x7FEFFFFFFFFFFFFF
-
-
-def has_max_double(v):
-    if v[0] == "num":
-        return (v[1] & ~(1 << 63)) == F64_MAX_BITS
-    if v[0] == "arr":
-        return any(has_max_double(x) for x in v[1])
-    if v[0] == "obj":
-        return any(has_max_double(x) for _, x in v[1])
-    return False
-
-
-def classify_parsejson_error(run, failure, v, answer):
-    """std.parseJson(text) is an ERROR (not a panic) and the value contains +-f64::MAX: the imprecise
-    float parser of serde_json rounds the 309-digit token up to infinity."""
-    if has_max_double(v) and isinstance(answer, dict) and answer.get("err") == "RuntimeError":
-        failure["known"] = KNOWN_PJ_MAX
-        failure["summary"] = failure["summary"].replace("C05 [", "C05 known [", 1)
-        run.count("known:parsejson-max-double")
-
-
-def classify_parsejson(run, failure, v, got):
-    """std.parseJson(text) differs from the value ONLY in numbers, each by at most PJ_TOL ulps, while the text
-    itself is exact (the oracle read the same text back bit for bit): serde_json without `float_roundtrip`."""
-    if compare(v, got, tol=PJ_TOL) is None:
-        failure["known"] = KNOWN_PJ
-        failure["summary"] = failure["summary"].replace("C05 [", "C05 known [", 1)
-        run.count("known:parsejson-number-off-by-ulp")
 
 
 def correspond(run, binary, cases, fcases, use_model=True):
@@ -807,7 +880,6 @@ def correspond(run, binary, cases, fcases, use_model=True):
             a2 = ans["also"][1]
             if "ok" not in a2:
                 fail("parseJson(std texts)", "std.parseJson rejects a text std.manifestJson*/toString emitted", show(v), a2)
-                classify_parsejson_error(run, failures[-1], v, a2)
             else:
                 pj = dict(from_canon(a2["ok"])[1])
         # the oracle
@@ -842,7 +914,6 @@ def correspond(run, binary, cases, fcases, use_model=True):
                 d = compare(v, x)
                 if d:
                     fail(name, f"std.parseJson does not give the value back ({d})", show(v), show(x))
-                    classify_parsejson(run, failures[-1], v, x)
         # second round: std.parseJson of the Rust-API texts
         names2 = [n for n in ("default", "minify", "cli:2") + (("tostring",) if v[0] != "str" else ())
                   if texts.get(n) is not None]
@@ -894,7 +965,6 @@ def correspond(run, binary, cases, fcases, use_model=True):
                 failures.append({"case": {"jsonnet": src, "path": f"parseJson({names2})", "value": show(v)},
                                  "summary": f"C05 [parseJson(API text)] std.parseJson rejects the emitted text: {src[:160]}",
                                  "what": "parseJson failed", "expected": show(v), "got": o})
-                classify_parsejson_error(run, failures[-1], v, o)
                 continue
             for name, x in zip(names2, from_canon(o["ok"])[1]):
                 d = compare(v, x)
@@ -902,7 +972,6 @@ def correspond(run, binary, cases, fcases, use_model=True):
                     failures.append({"case": {"jsonnet": src, "path": f"parseJson({name})", "value": show(v)},
                                      "summary": f"C05 [parseJson({name})] std.parseJson does not give the value back ({d}): {src[:160]}",
                                      "what": "parseJson not a left inverse", "expected": show(v), "got": show(x)})
-                    classify_parsejson(run, failures[-1], v, x)
         run.log("harness round 2 (std.parseJson of API texts) done")
 
     # ---------------- the Coq model, byte for byte (compared through length + checksum)
